@@ -170,8 +170,10 @@ EXTRA = {
            'the same path still act on the file system.',
     'C09': ' Also: handler programs over one or two context objects (reuse '
            'for a second handler, nesting around one exception, '
-           'force_reraise / capture / flag switches in the body) compared '
-           'step by step with a reference state.',
+           'force_reraise / capture / flag switches in the body, '
+           'force_reraise and __exit__ while another exception - the same '
+           'object, one of the same class, one of another class - is being '
+           'handled) compared step by step with a reference state.',
     'C06': ' Fault classes include MemoryError, RecursionError, '
            'StopIteration, AssertionError, OSError, struct.error.',
 }
